@@ -793,10 +793,16 @@ func valueSources(v ssa.Value, at ssa.Instruction, depth int) []ssa.Value {
 				var out []ssa.Value
 				seen := map[ssa.Value]bool{}
 				stores := 0
+				var allStores []ssa.Instruction
+				for _, r := range *al.Referrers() {
+					if st, ok := r.(*ssa.Store); ok && st.Addr == al {
+						allStores = append(allStores, st)
+					}
+				}
 				for _, r := range *al.Referrers() {
 					if st, ok := r.(*ssa.Store); ok && st.Addr == al {
 						stores++
-						if !instrCanReach(st, x) {
+						if !reachesUnkilled(st, x, allStores) {
 							continue
 						}
 						for _, s := range valueSources(st.Val, st, depth+1) {
@@ -899,6 +905,12 @@ func (m *Module) valEqD(a, b ssa.Value, d int) bool {
 	case *ssa.BinOp:
 		y, ok := b.(*ssa.BinOp)
 		return ok && x.Op == y.Op && m.valEqD(x.X, y.X, d+1) && m.valEqD(x.Y, y.Y, d+1)
+	case *ssa.IndexAddr:
+		y, ok := b.(*ssa.IndexAddr)
+		return ok && m.valEqD(x.X, y.X, d+1) && m.valEqD(x.Index, y.Index, d+1)
+	case *ssa.Index:
+		y, ok := b.(*ssa.Index)
+		return ok && m.valEqD(x.X, y.X, d+1) && m.valEqD(x.Index, y.Index, d+1)
 	case *ssa.FieldAddr:
 		y, ok := b.(*ssa.FieldAddr)
 		return ok && x.Field == y.Field && m.valEqD(x.X, y.X, d+1)
@@ -1063,4 +1075,60 @@ func sortedKeys[V any](m map[string]V) []string {
 	}
 	sort.Strings(ks)
 	return ks
+}
+
+// reachesUnkilled: there is a path from instruction from to instruction to
+// that does not pass through any other instruction in kills.
+func reachesUnkilled(from, to ssa.Instruction, kills []ssa.Instruction) bool {
+	isKill := map[ssa.Instruction]bool{}
+	for _, k := range kills {
+		if k != from {
+			isKill[k] = true
+		}
+	}
+	// scan the rest of from's block
+	scan := func(b *ssa.BasicBlock, start int) (found, killed bool) {
+		for i := start; i < len(b.Instrs); i++ {
+			in := b.Instrs[i]
+			if in == to {
+				return true, false
+			}
+			if isKill[in] {
+				return false, true
+			}
+		}
+		return false, false
+	}
+	if f, k := scan(from.Block(), instrIndex(from)+1); f {
+		return true
+	} else if k {
+		return false
+	}
+	seen := map[*ssa.BasicBlock]bool{}
+	var walk func(b *ssa.BasicBlock) bool
+	walk = func(b *ssa.BasicBlock) bool {
+		if seen[b] {
+			return false
+		}
+		seen[b] = true
+		f, k := scan(b, 0)
+		if f {
+			return true
+		}
+		if k {
+			return false
+		}
+		for _, s := range b.Succs {
+			if walk(s) {
+				return true
+			}
+		}
+		return false
+	}
+	for _, s := range from.Block().Succs {
+		if walk(s) {
+			return true
+		}
+	}
+	return false
 }
